@@ -1,11 +1,12 @@
 from props import tu, run, FCO, NONULL
 
-_PARTS = 14
+_PARTS = 18
 # cases per part (same enumeration in both tiers): static refs u8 (36), u16 (58, 48), u32 (54), u64 (27), dynamic refs (38),
 # bit-aligned pixels (56, 40), packed pixels (6), iterators (288); parts 3, 4, 5, 7 include the wide (20..32-bit) channels;
-# parts 10-12: 5 bit-aligned factory types each x (8 pixel + 32 iterator + 1 row case), part 13: 6 packed factory types
-_CASES = [36, 58, 48, 54, 27, 38, 56, 40, 6, 288, 205, 205, 205, 6]
-_SHARDS = [8, 16, 16, 8, 8, 16, 8, 16, 6, 8, 8, 8, 8, 6]
+# parts 0-5: every channel model has a second case on exactly sized blocks (tight-chan); part 9: 11 iterator models x (32 + 8 tight-const + 1 const view);
+# parts 10-12, 14: 5 (3) bit-aligned factory types each x (8 pixel + 41 iterator + 1 row case), part 13: 6 packed factory types
+_CASES = [72, 62, 46, 108, 54, 76, 56, 40, 6, 246, 250, 250, 250, 6, 150, 54, 50, 205]
+_SHARDS = [8, 16, 16, 8, 8, 16, 8, 16, 6, 8, 8, 8, 8, 6, 8, 16, 16, 8]
 
 CFG = dict(
     level="exploration",
@@ -43,6 +44,8 @@ CFG = dict(
                  "channels fit their bit field (first bit + Num <= 8*sizeof(BitField)); bit-aligned pixels use a bit field of at least bit_size+7 bits, as bit_aligned_image_type chooses",
                  "arithmetic operands are small enough that get() op v does not overflow int (that would be the caller's overflow)",
                  "same-type packed_pixel assignment / swap is a plain object copy (whole bit field); unused bits are only required to survive channel writes and assignments from other pixel models",
+                 "out-of-range reads are observed on blocks of exactly the needed size: exact heap allocations under ASan, a PROT_NONE page behind the block natively (end of block only); "
+                 "mutable and const flavours (const_reference, const iterators, const views, packed_*channel_reference<...,false>) are read there for row lengths 1..9 (24 thorough) and every start bit",
                  "the ASan build runs reduced content counts; out-of-bounds accesses themselves belong to C01, here only rows in exact-size heap blocks are exercised"],
     tus=[tu("c08_native%d" % k, "harness/c08_packed_bits.cpp", "native", extra=["-DC08_PART=%d" % k]) for k in range(_PARTS)]
         + [tu("c08_asan%d" % k, "harness/c08_packed_bits.cpp", "asan", extra=["-DC08_PART=%d" % k]) for k in range(_PARTS)],
@@ -52,5 +55,5 @@ CFG = dict(
                  "pdyn.8bit-field", "pdyn.16bit-field", "pdyn.32bit-field", "pdyn.64bit-field",
                  "bitaligned.1bit", "bitaligned.16bit", "bitaligned.40bit", "packedpixel.16bit",
                  "iter.arith", "iter.fill", "iter.copy", "iter.tight",
-                 "factory.row", "factory.gray7.carrier.*", "factory.rgb232.carrier.*", "factory.rgb565.carrier.*", "factory.pk.rgb565.carrier.u16"],
+                 "chan.tight", "iter.tight-const", "iter.tight-const-view", "factory.row", "factory.gray7.carrier.*", "factory.rgb232.carrier.*", "factory.rgb565.carrier.*", "factory.pk.rgb565.carrier.u16"],
 )
